@@ -2,7 +2,10 @@ module verifharness
 
 go 1.24.0
 
-require github.com/tidwall/tile38 v0.0.0
+require (
+	github.com/tidwall/gjson v1.18.0
+	github.com/tidwall/tile38 v0.0.0
+)
 
 require (
 	cloud.google.com/go v0.121.4 // indirect
@@ -76,7 +79,6 @@ require (
 	github.com/tidwall/expr v0.14.0 // indirect
 	github.com/tidwall/geoindex v1.7.0 // indirect
 	github.com/tidwall/geojson v1.4.6 // indirect
-	github.com/tidwall/gjson v1.18.0 // indirect
 	github.com/tidwall/grect v0.1.4 // indirect
 	github.com/tidwall/hashmap v1.8.1 // indirect
 	github.com/tidwall/match v1.2.0 // indirect
